@@ -229,4 +229,27 @@ theorem removeUnused_final (pts : Array (V3 K)) (idx : Array T3) :
   unfold removeUnused
   simp only [hused]
 
+/-- the index buffer is rewritten through ONE map `R`, injective on the indices the buffer uses -/
+theorem removeUnused_remap (pts : Array (V3 K)) (idx : Array T3)
+    (hidx : ∀ t, t ∈ idx.toList → t.a < pts.size ∧ t.b < pts.size ∧ t.c < pts.size) :
+    ∃ R : Nat → Nat, (removeUnused pts idx).2 = idx.map (fun t => ⟨R t.a, R t.b, R t.c⟩) ∧
+      ∀ t t' j j', t ∈ idx.toList → t' ∈ idx.toList → T3.Has t j → T3.Has t' j' → R j = R j' → j = j' := by
+  obtain ⟨P, R, ⟨org, _, _, _, hD, _⟩, heq⟩ := removeUnused_final pts idx
+  refine ⟨fun j => (R[j]?).getD 0, by rw [heq], ?_⟩
+  intro t t' j j' ht ht' hj hj' he
+  have hU : ∀ (t : T3) (j : Nat), t ∈ idx.toList → T3.Has t j → j < pts.size ∧
+      bAt (idx.toList.foldl markUsed (Array.replicate pts.size false)) j = true := by
+    intro t j ht hj
+    have hjl : j < pts.size := by
+      obtain ⟨h1, h2, h3⟩ := hidx t ht
+      rcases hj with rfl | rfl | rfl <;> assumption
+    refine ⟨hjl, ((markFold idx.toList (Array.replicate pts.size false)).2 j).mpr (Or.inr ⟨by simpa using hjl, t, ht, hj⟩)⟩
+  obtain ⟨a1, a2⟩ := hU t j ht hj
+  obtain ⟨b1, b2⟩ := hU t' j' ht' hj'
+  have e1 := (hD j a1 a2).2
+  have e2 := (hD j' b1 b2).2
+  simp only at he
+  rw [he] at e1
+  omega
+
 end C12.H3
